@@ -94,6 +94,10 @@ public:
             QTLOGGER_VERIF_POINT("rs.wait.relock", this, m_pendingCount.loadAcquire(), 0);
         }
 
+        // The mutex was released while waiting: another caller may have stopped the thread meanwhile
+        if (!m_thread)
+            return;
+
         QTLOGGER_VERIF_POINT("rs.quit", this, 0, 0);
         m_thread->quit();
 
